@@ -17,6 +17,7 @@
         each answer = <result>/<live records addr.seen.qid=contents, by address>/<closed queues, by identity>;
         a receive on a closed queue answers D *)
 From Coq Require Import List NArith ZArith Bool Arith String.
+From Snow Require Import Model.RedialQueue.
 From Snow Require Import Lib.Wire Model.GoHeap Model.ClientMap Model.QueueConn Model.Redial.
 Import ListNotations.
 Open Scope N_scope.
@@ -379,6 +380,113 @@ Definition BAR : N := 124.
 Definition redial_run (ecap : nat) (slow : bool) (toks : list rtok) : bytes :=
   join [BAR] (map config_print (rrun ecap slow toks (settle ecap slow [(rs_init, ([], []))]))).
 
+(* ---------------------------------------------------------------- redial at the capacity of its queues *)
+(*  turbotunnel redialq <ecap> <qcap> <tokens>: the same scripts as `redial`, with repetition <tok>*<n>, run
+    on the same machine (qcap must be QCAP; the driver needs the number for its own bookkeeping), and
+    with the CONTENTS of the two queues carried along (Model/RedialQueue.v ghost_send / ghost_recv, whose
+    lengths are the machine's counters: C17_redial_contents_refine_counters): the user's n-th WriteTo
+    sends packet n-1, the carriers' n-th successful ReadFrom delivers packet n.
+      off = the packets handed to a carrier's WriteTo, in order (as ranges a-b.c.d-e)
+      got = the packets the user's ReadFrom returned, in order *)
+Open Scope nat_scope.
+Definition STAR : N := 42%N.
+
+Definition rtoks_parse1 (t : bytes) : option (list rtok) :=
+  match split_on STAR t with
+  | [b] => option_map (fun x => [x]) (rtok_parse b)
+  | [b; n] => match rtok_parse b, dec_parse_nat n with
+              | Some x, Some k => Some (repeat x k)
+              | _, _ => None
+              end
+  | _ => None
+  end.
+
+Record qghost := mkqg {
+  g_next : nat;            (* number of user writes so far = id of the next packet written *)
+  g_send : list nat;       (* contents of sendQueue *)
+  g_off : list nat;        (* packets taken by a writer goroutine (handed to a carrier), latest first *)
+  g_seq : nat;             (* packets delivered by carriers so far *)
+  g_recv : list nat;       (* contents of recvQueue *)
+  g_got : list nat         (* packets returned to the user, latest first *)
+}.
+Definition qconfig := (config * qghost)%type.
+
+Definition hd_ans (c : config) : nat := match fst (snd c) with a :: _ => a | [] => 0 end.
+
+Definition ghost_tok (t : rtok) (s : rstate) (c' : config) (g : qghost) : qghost :=
+  match t with
+  | KUW => mkqg (S (g_next g)) (ghost_send nat QCAP s LUWrite (g_send g) (g_next g)) (g_off g) (g_seq g) (g_recv g) (g_got g)
+  | KRead k true =>
+      if Nat.eqb (hd_ans c') 0       (* the carrier's pending ReadFrom did return a packet *)
+      then mkqg (g_next g) (g_send g) (g_off g) (S (g_seq g))
+                (ghost_recv nat QCAP s (LReadOk k) (g_recv g) (S (g_seq g))) (g_got g)
+      else g
+  | KUR => mkqg (g_next g) (g_send g) (g_off g) (g_seq g) (ghost_recv nat QCAP s LURead (g_recv g) 0)
+                (match (if r_closed s then None else fst (bq_pop nat (g_recv g))) with
+                 | Some x => x :: g_got g
+                 | None => g_got g
+                 end)
+  | _ => g
+  end.
+
+(* the internal steps run by `closure` change sendQueue only by LWSelPkt (a writer takes the oldest packet
+   and calls the carrier's WriteTo with it): as many packets left the queue as the counter went down *)
+Definition ghost_sync (s : rstate) (g : qghost) : qghost :=
+  let k := List.length (g_send g) - r_sendq s in
+  mkqg (g_next g) (skipn k (g_send g)) (List.rev (firstn k (g_send g)) ++ g_off g) (g_seq g) (g_recv g) (g_got g).
+
+Definition enc_qconfig (qc : qconfig) : list nat :=
+  enc_config (fst qc) ++ [97; g_next (snd qc); g_seq (snd qc)] ++ g_send (snd qc) ++ [96] ++ g_off (snd qc) ++ [95]
+  ++ g_recv (snd qc) ++ [94] ++ g_got (snd qc).
+
+Fixpoint qdedupe (seen : list (list nat)) (cs : list qconfig) : list qconfig :=
+  match cs with
+  | [] => []
+  | c :: cs' =>
+      let e := enc_qconfig c in
+      if existsb (lnat_eqb e) seen then qdedupe seen cs' else c :: qdedupe (e :: seen) cs'
+  end.
+
+Section RedialQRun.
+  Variable ecap : nat.
+
+  Definition qapply (t : rtok) (qc : qconfig) : qconfig :=
+    let c' := apply_tok ecap t (fst qc) in (c', ghost_tok t (fst (fst qc)) c' (snd qc)).
+
+  Definition qsettle (cs : list qconfig) : list qconfig :=
+    let out := flat_map (fun qc => map (fun s => ((s, snd (fst qc)), ghost_sync s (snd qc)))
+                                       (closure ecap false 64 (fst (fst qc)))) cs in
+    match out with
+    | [_] => out
+    | _ => qdedupe [] out
+    end.
+
+  Fixpoint qrrun (toks : list rtok) (cs : list qconfig) : list qconfig :=
+    match toks with
+    | [] => cs
+    | t :: toks' => qrrun toks' (qsettle (map (qapply t) cs))
+    end.
+End RedialQRun.
+
+Fixpoint ranges_aux (lo hi : nat) (l : list nat) : list (nat * nat) :=
+  match l with
+  | [] => [(lo, hi)]
+  | x :: t => if Nat.eqb x (S hi) then ranges_aux lo x t else (lo, hi) :: ranges_aux x x t
+  end.
+Definition ranges (l : list nat) : list (nat * nat) :=
+  match l with [] => [] | x :: t => ranges_aux x x t end.
+Definition range_print (r : nat * nat) : bytes :=
+  if Nat.eqb (fst r) (snd r) then nat_print (fst r) else (nat_print (fst r) ++ [45%N] ++ nat_print (snd r))%list.
+
+Definition qconfig_print (qc : qconfig) : bytes :=
+  (config_print (fst qc) ++ bs " off=" ++ dotted (map range_print (ranges (List.rev (g_off (snd qc)))))
+   ++ bs " got=" ++ dotted (map range_print (ranges (List.rev (g_got (snd qc))))))%list.
+
+Definition redialq_run (ecap : nat) (toks : list rtok) : bytes :=
+  join [BAR] (map qconfig_print
+    (qrrun ecap toks (qsettle ecap [((rs_init, ([], [])), mkqg 0 [] [] 0 [] [])]))).
+Open Scope N_scope.
+
 (* the op list of a qc case may be split over several space separated fields (Wire.split_on is
    quadratic in the length of one field) *)
 Definition chunks_parse {A} (f : bytes -> option A) (fields : list bytes) : option (list A) :=
@@ -429,7 +537,12 @@ Definition run (args : list bytes) : bytes :=
             end
           else ERR_BADCASE
       | [b; c] =>
-          if beq op (bs "qx") then
+          if beq op (bs "redialq") then
+            match dec_parse_nat a, dec_parse_nat b, option_map (@List.concat rtok) (list_parse rtoks_parse1 c) with
+            | Some ecap, Some qcap, Some toks => if Nat.eqb qcap QCAP then redialq_run ecap toks else ERR_BADCASE
+            | _, _, _ => ERR_BADCASE
+            end
+          else if beq op (bs "qx") then
             match dec_parse_nat a, zdec_parse b, list_parse qop_parse c with
             | Some cap, Some timeout, Some ops => list_print (map qout_print (snd (qrun cap timeout ops qc_empty)))
             | _, _, _ => ERR_BADCASE
